@@ -100,7 +100,7 @@ let listing_matches (s : state) (real : (int list * int list * int list) option)
    A goroutine logs a sub-step after performing it, so another goroutine can observe the effect and log its
    own event first: when an event is not enabled, it is retried after one in-flight sub-step of another
    goroutine (its own log line, arriving later, is then skipped). *)
-let max_window = ref 0 and races = ref 0 and max_window_at_purge = ref (-1) and snap_purges = ref 0
+let max_window = ref 0 and races = ref 0 and max_window_at_purge = ref (-1) and snap_purges = ref 0 and sched_false = ref 0
 let note_state (s : state) =
   let w = List.length (List.filter (fun (_, p) -> p = SnFile) s.sns) in
   if w > !max_window then max_window := w
@@ -112,18 +112,22 @@ let run_events (c : config) (s : state) (evs : (string * event) list) : (state, 
     | (txt, e) :: t ->
       if List.mem e pend then go s (remove_first e pend) (pos + 1) t
       else begin
-        (match e with
-         | EvPgBefore k when int_of_n k = 4 ->
-           let w = List.length (List.filter (fun (_, p) -> p = SnFile) s.sns) in
-           incr snap_purges; if w > !max_window_at_purge then max_window_at_purge := w
-         | _ -> ());
+        (* the schedule hypothesis of the theorems is evaluated on the real run: a log on which it is false is rejected *)
+        if not (sched_holds c s e) then (incr sched_false; Stdlib.Error (pos, 106, txt)) else
         (match step c s e with
-         | Ok s' -> note_state s'; go s' pend (pos + 1) t
+         | Ok s' ->
+           (match e with
+            | EvPgBefore k when int_of_n k = 4 ->
+              let w = List.length (List.filter (fun (_, p) -> p = SnFile) s.sns) in
+              incr snap_purges; if w > !max_window_at_purge then max_window_at_purge := w
+            | _ -> ());
+           note_state s'; go s' pend (pos + 1) t
          | Err code ->
            let rec try_inflight = function
              | [] -> Stdlib.Error (pos, int_of_n code, txt)
              | x :: xs ->
                (match step c s x with
+                | Ok s1 when not (sched_holds c s1 e) -> incr sched_false; try_inflight xs
                 | Ok s1 ->
                   (match step c s1 e with
                    | Ok s2 ->
@@ -238,4 +242,4 @@ let () =
     | _ -> ())
   ;
   (let oc = open_out "model.stats" in
-   Printf.fprintf oc "max_window %d\nlog_order_races %d\nmax_window_at_snap_purge %d\nsnap_purge_decisions %d\n" !max_window !races !max_window_at_purge !snap_purges; close_out oc)
+   Printf.fprintf oc "max_window %d\nlog_order_races %d\nmax_window_at_snap_purge %d\nsnap_purge_decisions %d\nsched_hypothesis_false %d\n" !max_window !races !max_window_at_purge !snap_purges !sched_false; close_out oc)
